@@ -223,6 +223,11 @@ pub(super) fn regex_matches_optimized(left: &FieldValue, regex: &Regex) -> bool 
     }
 }
 
+#[inline(always)]
+fn regex_matches_if_valid(left: &FieldValue, regex: &Option<Regex>) -> bool {
+    regex.as_ref().is_some_and(|regex| regex_matches_optimized(left, regex))
+}
+
 fn apply_unary_filter<
     'query,
     Vertex: Debug + Clone + 'query,
@@ -455,16 +460,15 @@ fn apply_filter_with_static_argument_value<'query, Vertex: Debug + Clone + 'quer
             apply_filter_op_with_static_argument(right_value, not!(has_substring), iterator)
         }
         Operation::RegexMatches(_, _) => {
+            // As with tagged arguments, a string that is not a valid regex matches nothing.
             let pattern =
-                Regex::new(right_value.as_str().expect("regex argument was not a string"))
-                    .expect("regex argument was not a valid regex");
-            apply_filter_op_with_static_argument(pattern, regex_matches_optimized, iterator)
+                Regex::new(right_value.as_str().expect("regex argument was not a string")).ok();
+            apply_filter_op_with_static_argument(pattern, regex_matches_if_valid, iterator)
         }
         Operation::NotRegexMatches(_, _) => {
             let pattern =
-                Regex::new(right_value.as_str().expect("regex argument was not a string"))
-                    .expect("regex argument was not a valid regex");
-            apply_filter_op_with_static_argument(pattern, not!(regex_matches_optimized), iterator)
+                Regex::new(right_value.as_str().expect("regex argument was not a string")).ok();
+            apply_filter_op_with_static_argument(pattern, not!(regex_matches_if_valid), iterator)
         }
 
         Operation::IsNull(_) | Operation::IsNotNull(_) => unreachable!("{filter:?}"),
